@@ -145,6 +145,10 @@ func freshHandle(v ssa.Value, depth int) bool {
 	case *ssa.UnOp:
 		if x.Op == token.MUL {
 			if fa, ok := x.X.(*ssa.FieldAddr); ok {
+				// the URL of a request: requests are per-request objects, not handles shared between components
+				if strings.HasSuffix(typeStr(fa.X.Type()), "http.Request") {
+					return true
+				}
 				// req.URL of a request built here (not: a pointer kept in a local copy of somebody's structure)
 				if _, local := fa.X.(*ssa.Alloc); !local {
 					return freshHandle(fa.X, depth+1)
@@ -294,6 +298,35 @@ func decodeTargets(w *World, fn *ssa.Function, arg ssa.Value, depth int) []ssa.V
 	return out
 }
 
+// sameRead: a and b are the same value, or two reads of the same place (`if t.Opt != nil { use(t.Opt.X) }` reads the
+// field twice): loads through structurally equal addresses.
+func sameRead(a, b ssa.Value, depth int) bool {
+	if a == b {
+		return true
+	}
+	if depth > 6 {
+		return false
+	}
+	switch x := a.(type) {
+	case *ssa.UnOp:
+		y, ok := b.(*ssa.UnOp)
+		return ok && x.Op == token.MUL && y.Op == token.MUL && sameRead(x.X, y.X, depth+1)
+	case *ssa.FieldAddr:
+		y, ok := b.(*ssa.FieldAddr)
+		return ok && x.Field == y.Field && sameRead(x.X, y.X, depth+1)
+	case *ssa.Field:
+		y, ok := b.(*ssa.Field)
+		return ok && x.Field == y.Field && sameRead(x.X, y.X, depth+1)
+	case *ssa.IndexAddr:
+		y, ok := b.(*ssa.IndexAddr)
+		return ok && sameRead(x.X, y.X, depth+1) && sameRead(x.Index, y.Index, depth+1)
+	case *ssa.Const:
+		y, ok := b.(*ssa.Const)
+		return ok && x.Value != nil && y.Value != nil && x.Value.ExactString() == y.Value.ExactString()
+	}
+	return false
+}
+
 // nilGuarded: the use in block `at` is dominated by the non-nil side of a test of v against nil.
 func nilGuarded(v ssa.Value, at *ssa.BasicBlock) bool {
 	fn := at.Parent()
@@ -310,7 +343,7 @@ func nilGuarded(v ssa.Value, at *ssa.BasicBlock) bool {
 			continue
 		}
 		isNil := func(x ssa.Value) bool { k, ok := x.(*ssa.Const); return ok && k.Value == nil }
-		if !((bo.X == v && isNil(bo.Y)) || (bo.Y == v && isNil(bo.X))) {
+		if !((sameRead(bo.X, v, 0) && isNil(bo.Y)) || (sameRead(bo.Y, v, 0) && isNil(bo.X))) {
 			continue
 		}
 		succ := b.Succs[0]
